@@ -51,6 +51,7 @@ def _obs_eq(ro, u, shift_reads=False):
 def _wrun(chunk):
     from bind import trace_packet as tp
     out = []
+    per_kind = {}
     for c in chunk:
         d = _W["univ"][c["d"] - 1]
         raw2 = c["pre"] + c["raw"] + c["post"]
@@ -66,7 +67,9 @@ def _wrun(chunk):
                         ok = False
             if c.get("dev10b") and r2["st"] == "done":
                 ok = False      # named deviation F10b exhibited: let TLC confirm it on the recording
-            if not ok:
+            kind = "dev10b" if c.get("dev10b") else "diff"
+            per_kind[kind] = per_kind.get(kind, 0) + (0 if ok else 1)
+            if not ok and per_kind[kind] <= 40:
                 rec, extra = tp.make_record(d, c["raw"], 0, gen, r1, None, False)
                 rec["has2"] = True
                 rec["shift"] = len(c["pre"])
